@@ -165,8 +165,6 @@ EDITS = {
         ("dt03", "crates/lib/plugins/mimium-audiodriver/src/backends/local_buffer.rs", "            self.count.store(now + 1, Ordering::Relaxed);", "            self.count.store(now + 2, Ordering::Relaxed);", "verus", "dsp_tick"),
         ("dt04", "crates/lib/plugins/mimium-audiodriver/src/backends/local_buffer.rs", "            let _ = vmdata.run_dsp(Time(now));", "            let _ = vmdata.run_dsp(Time(now + 1));", "verus", "dsp_tick"),
         ("dt05", "crates/lib/plugins/mimium-audiodriver/src/driver.rs", "                let _ = plug.on_sample(time, &mut self.vm);", "                let _ = plug.on_sample(Time(time.0.saturating_sub(1)), &mut self.vm);", "verus", "dsp_tick"),
-        ("cn01", "crates/lib/mimium-lang/src/compiler/mirgen/convert_qualified_names.rs", "        Pattern::Single(name) => {\n            names.insert(*name);\n        }", "        Pattern::Single(name) => {\n            let _ = name;\n        }", "verus", "resolve_walk"),
-        ("cn02", "crates/lib/mimium-lang/src/compiler/mirgen/convert_qualified_names.rs", "        Pattern::Record(fields) => {\n            for (_, p) in fields {\n                collect_names_from_pattern(p, names);\n            }\n        }", "        Pattern::Record(fields) => {\n            let _ = fields;\n        }", "verus", "resolve_walk"),
         ("sc01", SCH + "scheduler.rs", "Some(Reverse(Task { when, closure })) if *when <= now => {", "Some(Reverse(Task { when, closure })) if *when < now => {", "verus", "scheduler"),
         ("sc02", SCH + "scheduler.rs", "self.when.cmp(&other.when)", "self.closure.cmp(&other.closure)", "both", "scheduler"),
         ("sc03", SCH + "scheduler.rs", "                let _ = self.tasks.pop();\n", "", "verus", "scheduler"),
@@ -231,9 +229,11 @@ EDITS = {
         ("rn07", "crates/lib/mimium-lang/src/compiler/mirgen/convert_qualified_names.rs", "    if ctx.is_locally_bound(name) {\n        return Expr::Var(name).into_id(loc);\n    }\n", "", "verus", "resolve_names"),
         ("rn08", "crates/lib/mimium-lang/src/compiler/mirgen/convert_qualified_names.rs", "        if !is_public && !ctx.is_within_module_hierarchy(&target_path) {", "        if !is_public && ctx.is_within_module_hierarchy(&target_path) {", "verus", "resolve_names"),
         ("rn09", "crates/lib/mimium-lang/src/ast/program.rs", "        if exists(&relative_mangled) {\n            return (relative_mangled, relative_path);", "        if exists(&relative_mangled) {\n            return (relative_mangled, path_segments.to_vec());", "verus", "resolve_names"),
-        ("sc01", "crates/lib/mimium-lang/src/compiler/mirgen/convert_qualified_names.rs", "        let _ = self.local_bindings.pop();", "        let _ = self.local_bindings.pop();\n        let _ = self.local_bindings.pop();", "verus", "resolve_walk"),
-        ("sc02", "crates/lib/mimium-lang/src/compiler/mirgen/convert_qualified_names.rs", "        if let Some(scope) = self.local_bindings.last_mut() {\n            scope.insert(symbol);", "        if let Some(scope) = self.local_bindings.first_mut() {\n            scope.insert(symbol);", "verus", "resolve_walk"),
-        ("sc03", "crates/lib/mimium-lang/src/compiler/mirgen/convert_qualified_names.rs", "        self.local_bindings.push(HashSet::new());", "        if self.local_bindings.is_empty() { self.local_bindings.push(HashSet::new()); }", "verus", "resolve_walk"),
+        ("cn01", "crates/lib/mimium-lang/src/compiler/mirgen/convert_qualified_names.rs", "        Pattern::Single(name) => {\n            names.insert(*name);\n        }", "        Pattern::Single(name) => {\n            let _ = name;\n        }", "verus", "resolve_walk"),
+        ("cn02", "crates/lib/mimium-lang/src/compiler/mirgen/convert_qualified_names.rs", "            for (_, p) in fields {\n                collect_names_from_pattern(p, names);", "            for (_, p) in fields {\n                let _ = p;", "verus", "resolve_walk"),
+        ("ss01", "crates/lib/mimium-lang/src/compiler/mirgen/convert_qualified_names.rs", "        let _ = self.local_bindings.pop();", "        let _ = self.local_bindings.pop();\n        let _ = self.local_bindings.pop();", "verus", "resolve_walk"),
+        ("ss02", "crates/lib/mimium-lang/src/compiler/mirgen/convert_qualified_names.rs", "        if let Some(scope) = self.local_bindings.last_mut() {\n            scope.insert(symbol);", "        if let Some(scope) = self.local_bindings.first_mut() {\n            scope.insert(symbol);", "verus", "resolve_walk"),
+        ("ss03", "crates/lib/mimium-lang/src/compiler/mirgen/convert_qualified_names.rs", "        self.local_bindings.push(HashSet::new());", "        if self.local_bindings.is_empty() { self.local_bindings.push(HashSet::new()); }", "verus", "resolve_walk"),
         ("rw10", "crates/lib/mimium-lang/src/compiler/mirgen/convert_qualified_names.rs", "            let new_rhs = convert_expr(ctx, rhs);", "            let new_rhs = rhs;", "verus", "resolve_walk"),
         ("rw11", "crates/lib/mimium-lang/src/compiler/mirgen/convert_qualified_names.rs", "            // Unwrap parenthesized expressions\n            convert_expr(ctx, e)", "            // Unwrap parenthesized expressions\n            e", "verus", "resolve_walk"),
         ("rw12", "crates/lib/mimium-lang/src/compiler/mirgen/convert_qualified_names.rs", "            Expr::Apply(new_fun, new_args).into_id(loc)", "            Expr::Apply(fun, new_args).into_id(loc)", "verus", "resolve_walk"),
